@@ -60,6 +60,7 @@ def run(rep, ctx):
         c01.r01_3(rep, M, "R02.6")
         c01.r01_9(rep, M, "R02.6", cluster_context=True)
         c01.r01_8(rep, M, "R02.6")
+        c03.merged_not_kept_twice(rep, M, "R02.6")
     rep.rule("R02.7", "the dimensionality the cluster reports is that of its current atoms with the clustering radii and threshold: cache dropped when the indices "
                       "change, context forwarded, first evaluation wrapped / cut off / in the cell of the same object (3 for bulk, 2 for slabs; shared with C13 / C09)")
     with rep.guard("R02.7"):
